@@ -101,7 +101,7 @@ PRELUDES = [
     "l_q := [\n\t1,\n\t2, # é\n\t3,\n]\n",
     "o_q := {\n    \"k\": 1,\n    \"é\": [\n        2,\n    ],\n}\n",
     "a_q := 1;\tb_q := 2;  \t c_q := \"é😀\" ; ",
-    "a_q := 1\r\nb_q := 2\r\n\r\n",
+    "d_q := 1\r\ne_q := 2\r\n\r\n",
     "print(\"x\") # 😀😀😀\n\t\t",
     "t_q := $\"é${\"a\"}\n€\"\n",
     "fn pre_q(a) {\n\treturn a\n}\n\n# é\n   ",
@@ -207,7 +207,7 @@ def build_cases(ctx, rng, n):
             if rng.random() < 0.5:
                 pre = rng.choice(PRELUDES) + pre
         elif c < 0.9:
-            pre = "".join(rng.choice(PRELUDES) for _ in range(rng.randrange(1, 4)))
+            pre = "".join(rng.sample(PRELUDES, rng.randrange(1, 4)))      # distinct: each declares its own names
         else:
             pre = ""
         if pre and not pre.endswith(("\n", " ", "\t")):
@@ -228,7 +228,7 @@ def build_cases(ctx, rng, n):
 def run(ctx, model_ok):
     rng = ctx.rng
     thorough = ctx.tier == "thorough"
-    n_base = 9000 if thorough else 500
+    n_base = 9000 if thorough else 1000
     n_layouts = 5 if thorough else 3
     chunk = 1500
     state = {"reported": {}, "sampled": set()}
